@@ -548,3 +548,10 @@ def run(ctx, rep, tier="quick"):
     s9(ctx, rep)
     from . import c01
     c01.s10(ctx, rep, clause="S8")
+    # nothing is left running / more than n_workers never run because the running set is what it should be: finished trials leave it,
+    # and only the trials that finished in this iteration (shared with C01-S7) - a resumed trial must not be dropped again
+    sub = type(rep)(rep.prop)
+    c01.s7(ctx, sub)
+    for i in sub.items:
+        i.clause = "S8"
+        rep.items.append(i)
